@@ -5,6 +5,7 @@ package main
 import (
 	"bufio"
 	"encoding/json"
+	"errors"
 	"flag"
 	"fmt"
 	"math/rand"
@@ -15,18 +16,21 @@ import (
 )
 
 type CState struct {
-	Live bool       `json:"live"`
-	Kw   string     `json:"kw"`
-	Op   string     `json:"op"`
-	Ex   string     `json:"ex"`
-	Opts []string   `json:"opts"`
-	Enc  [][]string `json:"enc"`
-	Err  string     `json:"err"`
-	ID   string     `json:"id"`
-	Cat  string     `json:"cat"`
-	VPol string     `json:"vpol"`
-	PPol bool       `json:"ppol"`
-	Lvl  []int      `json:"lvl"`
+	Live  bool       `json:"live"`
+	Kw    string     `json:"kw"`
+	Op    string     `json:"op"`
+	Ex    string     `json:"ex"`
+	Opts  []string   `json:"opts"`
+	Enc   [][]string `json:"enc"`
+	Err   string     `json:"err"`
+	ID    string     `json:"id"`
+	Cat   string     `json:"cat"`
+	VPol  string     `json:"vpol"`
+	PPol  bool       `json:"ppol"`
+	EPol  bool       `json:"epol"`
+	UPol  bool       `json:"upol"`
+	EvPol bool       `json:"evpol"`
+	Lvl   []int      `json:"lvl"`
 }
 
 // sliceOp: a user-defined Operator whose Go type is NOT comparable (== on two of them panics)
@@ -245,6 +249,15 @@ func (condMachine) Build(st, _ json.RawMessage) Handle {
 	if a.PPol {
 		h.c.SetPresentationPolicy(func(...any) string { return "<<closure>>" })
 	}
+	if a.EPol {
+		setCondClosure(h, "SetEqualityPolicy", true)
+	}
+	if a.UPol {
+		setCondClosure(h, "SetUnmarshaler", true)
+	}
+	if a.EvPol {
+		setCondClosure(h, "SetEvaluator", true)
+	}
 	if a.Err == "set" {
 		h.c.SetErr(errUser)
 	}
@@ -329,6 +342,8 @@ func (condMachine) Apply(hh Handle, _ string, c Call) (ret []string) {
 		} else {
 			h.c.SetPresentationPolicy(nil)
 		}
+	case "SetEqualityPolicy", "SetUnmarshaler", "SetEvaluator":
+		setCondClosure(h, c.Op(), c.Bool("on"))
 	case "Free":
 		if err := h.c.Free(); err != nil {
 			ret = []string{"err"}
@@ -339,6 +354,36 @@ func (condMachine) Apply(hh Handle, _ string, c Call) (ret []string) {
 		panic("harness: unknown condition op " + c.Op())
 	}
 	return
+}
+
+// setCondClosure installs / removes (alternating between the "no argument" and the nil spelling) one of the further closures
+func setCondClosure(h *condHandle, op string, on bool) {
+	h.n++
+	alt := h.n%2 == 0
+	switch op {
+	case "SetEqualityPolicy":
+		if on {
+			h.c.SetEqualityPolicy(func(any, any) error { return errClosure })
+		} else if alt {
+			h.c.SetEqualityPolicy()
+		} else {
+			h.c.SetEqualityPolicy(nil)
+		}
+	case "SetUnmarshaler":
+		if on {
+			h.c.SetUnmarshaler(func(...any) ([]any, error) { return []any{"<<closure>>"}, nil })
+		} else if alt {
+			h.c.SetUnmarshaler()
+		} else {
+			h.c.SetUnmarshaler(nil)
+		}
+	case "SetEvaluator":
+		if on {
+			h.c.SetEvaluator(func(...any) (any, error) { return "<<closure>>", nil })
+		} else {
+			h.c.SetEvaluator(nil)
+		}
+	}
 }
 
 type CObs struct {
@@ -362,6 +407,9 @@ type CObs struct {
 	Str     string     `json:"str"`
 	Bits    []string   `json:"bits"`
 	LogLvls string     `json:"loglevels"`
+	EqSrc   string     `json:"eqsrc"`
+	UmSrc   string     `json:"umsrc"`
+	EvSrc   string     `json:"evsrc"`
 }
 
 var condFlagBits = []int{1, 4, 128, 256} // paren nspad ronly nnest
@@ -405,6 +453,38 @@ func ObserveCond(c stackage.Condition) CObs {
 	})
 	o.Str = safeS(c.String)
 	o.LogLvls = safeS(c.LogLevels)
+	o.EqSrc, o.UmSrc, o.EvSrc = "none", "none", "none"
+	if o.Init == "true" {
+		o.EqSrc = safeS(func() string {
+			if errors.Is(c.IsEqual(c), errClosure) {
+				return "closure"
+			}
+			// no closure of its own: the peer's closure (which calls everything equal) must not be consulted
+			peer := stackage.Cond("peer-only", stackage.Ne, "peer-value")
+			peer.SetEqualityPolicy(func(any, any) error { return nil })
+			if c.IsEqual(peer) == nil {
+				return "peer-closure"
+			}
+			return "builtin"
+		})
+		o.UmSrc = safeS(func() string {
+			u, _ := c.Unmarshal()
+			if len(u) == 1 && u[0] == "<<closure>>" {
+				return "closure"
+			}
+			return "builtin"
+		})
+		o.EvSrc = safeS(func() string {
+			v, err := c.Evaluate("x", 1)
+			switch {
+			case err != nil && v == nil:
+				return "error"
+			case err == nil && v == "<<closure>>":
+				return "closure"
+			}
+			return fmt.Sprintf("?%v/%v", v, err)
+		})
+	}
 	o.Enc = [][]string{}
 	o.Bits = []string{}
 	if o.Init == "true" {
@@ -497,7 +577,7 @@ func cmdCondTraceGen(args []string) {
 			case r < 97:
 				c = Call{"op": "SetValidityPolicy", "mode": []string{"none", "ok", "bad"}[rng.Intn(3)]}
 			case r < 99:
-				c = Call{"op": "SetPresentationPolicy", "on": rng.Intn(2) == 0}
+				c = Call{"op": []string{"SetPresentationPolicy", "SetEqualityPolicy", "SetUnmarshaler", "SetEvaluator"}[rng.Intn(4)], "on": rng.Intn(2) == 0}
 			default:
 				c = Call{"op": "Free"}
 			}
